@@ -985,6 +985,7 @@ EVAL_PARENT_SETTERS = {
     "Comparator._evaluate__": "operands are shared between comparisons",
     "AND._evaluate__": "an operand can be an operand of another operator as well",
     "ElseIf._evaluate__": "an operand can be an operand of another operator as well",
+    "Variable._bind_child_vars_": "an argument (a sub-query given to a predicate, a nested term) can be used by other queries as well",
 }
 
 
